@@ -355,6 +355,39 @@ func c20(c *core.Ctx) {
 				"operation": "Check(key A), Check(key B), Build(... MessageIntegrity key C), Check(key A), repeated, warm buffers with spare capacity 64", "key_lengths": fmt.Sprint(lens), "allocs_per_run": a})
 		}
 	})
+	// rebuilding a message in place from the values its typed getters returned (which are views into its own buffer), with
+	// a layout shifted against the decoded one (a leading attribute dropped or added)
+	c.SectionSerial("rebuild-in-place-from-own-values", 4, func(i int64, r *gen.Rand) {
+		src := stun.MustBuild(stun.BindingRequest, stun.NewTransactionIDSetter(r.TID()), stun.NewSoftware("lead"), stun.NewUsername("user:name:0123"),
+			stun.NewRealm("realm.example.org"), stun.NewNonce("nonce-0123456789abcdef"))
+		wire := append([]byte(nil), src.Raw...)
+		m := &stun.Message{Raw: make([]byte, 0, 512)}
+		if err := stun.Decode(wire, m); err != nil {
+			fatalHarness("C20 rebuild: " + err.Error())
+		}
+		var user stun.Username
+		var realm stun.Realm
+		var nonce stun.Nonce
+		var soft stun.Software
+		if err := m.Parse(&user, &realm, &nonce, &soft); err != nil {
+			fatalHarness("C20 rebuild: " + err.Error())
+		}
+		tid := stun.NewTransactionIDSetter(m.TransactionID)
+		extra := stun.NewSoftware("a longer leading attribute than before")
+		setters := [][]stun.Setter{
+			{stun.BindingRequest, tid, user, realm, nonce},               // leading SOFTWARE dropped: everything moves up
+			{stun.BindingRequest, tid, &extra, user, realm, nonce},       // longer lead: everything moves down
+			{stun.BindingRequest, tid, nonce, realm, user},               // order reversed
+			{stun.BindingRequest, tid, soft, user, realm, nonce, &extra}, // same layout, one more at the end
+		}[i]
+		_ = m.Build(setters...)
+		c.Eval(1)
+		a := testing.AllocsPerRun(100, func() { _ = m.Build(setters...) })
+		if a != 0 {
+			c.Violate("allocates", fmt.Sprintf("alloc:rebuild-in-place:%d", i), map[string]interface{}{
+				"operation": "Build in place from values obtained by the typed getters of the same message (views into its own buffer), layout variant " + fmt.Sprint(i), "allocs_per_run": a})
+		}
+	})
 	// an attribute-less message in between must not cost the warm attribute list
 	c.SectionSerial("empty-then-full-decode", 3, func(i int64, r *gen.Rand) {
 		setters := []stun.Setter{stun.BindingSuccess, stun.NewTransactionIDSetter(r.TID())}
